@@ -504,6 +504,30 @@ def generate(table, pred, tier="quick"):
                 why=f"model variance of {a['name']} in {tp} = {var}", allow=["region"], twin_of=tid,
                 src=hdr + f"fn grow{sig}(x: &'g {inst(chr(38) + chr(39) + 'short u8')}) -> &'g {inst(chr(38) + chr(39) + 'long u8')} {{ x }}\nfn main() {{}}\n")
 
+    # ---- builders must be invariant in their value type -------------------------------------------
+    # `write` / `write_header` / `write_slice_with` / `copy_slice` carry no `Collect` bound of their own (it is
+    # checked when the builder is created), so a builder that is covariant in its value type lets safe code
+    # coerce `GcBuilder<'gc, &'static U>` to `GcBuilder<'gc, &'gc U>` and store an untraced `&'gc U` in the arena
+    bp = adt_pred.get("GcBuilder")
+    if bp is not None:
+        var = dict((t, v) for t, v in bp["tyVariance"]).get("T")
+        prog = ("#![forbid(unsafe_code)]\nuse gc_arena::{Arena, Gc, GcBuilder, Rootable, Lock, Collect};\n"
+                "#[derive(Collect)]\n#[collect(no_drop)]\nstruct Root<'gc> { slot: Gc<'gc, Lock<Option<Gc<'gc, &'gc String>>>> }\n"
+                "fn main() {\n    let mut arena = Arena::<Rootable![Root<'_>]>::new(|mc| Root { slot: Gc::new(mc, Lock::new(None)) });\n"
+                "    arena.mutate(|mc, root| {\n        let s: Gc<'_, String> = Gc::new_static(mc, String::from(\"hello\"));\n"
+                "        let r: &String = s.as_ref();\n        let b: GcBuilder<'_, &'static String> = GcBuilder::new();\n"
+                "        let g = b.write(mc, r);\n        root.slot.set(mc, Some(Gc::erase_kind(g)));\n    });\n"
+                "    arena.finish_cycle();\n    arena.mutate(|mc, _| { for _ in 0..64 { Gc::new_static(mc, String::from(\"XXXXXXXXXXXXXXXX\")); } });\n"
+                "    let ok = arena.mutate(|_, root| **root.slot.get().unwrap() == \"hello\");\n"
+                "    println!(\"DANGLING-READ through a &'gc String stored in the arena: the String it points to was collected; reads back as hello: {}\", ok);\n}\n")
+        twin = ("#![forbid(unsafe_code)]\nuse gc_arena::{Arena, Gc, GcBuilder, Rootable, Lock, Collect};\n"
+                "fn main() { gc_arena::arena::rootless_mutate(|mc| { let b: GcBuilder<'_, &'static str> = GcBuilder::new(); let g = b.write(mc, \"x\"); assert_eq!(*g, \"x\"); }); }\n")
+        add(id="builder_value_variance_twin", cls="builder-variance", negative=False, predict="accept", why="a builder for a 'static reference type, used as such", src=twin)
+        add(id="builder_value_variance_ref_smuggle", cls="builder-variance", negative=True,
+            predict="accept" if var in ("co", "bi") else "reject",
+            why=f"model variance of GcBuilder in its value type T = {var}: a covariant builder stores a &'gc String in the arena",
+            allow=["region"], twin_of="builder_value_variance_twin", src=prog, exploit=prog)
+
     # ---- Send / Sync of every nameable type ----------------------------------------------------
     must_not = set(pred.get("requiredNotSendSync", []))
     for a in table["adts"]:
